@@ -19,7 +19,9 @@
 (***************************************************************************)
 EXTENDS Aggs, AggTable, Factorize, TLC
 
-CONSTANTS MaxLen, MinLen, NLabels, SplitEvery, Names, Wide
+CONSTANTS MaxLen, MinLen, NLabels, SplitEvery, Names, Wide,
+          Reindexes,     \* subset of {"none", "true", "false"}: the reindex= argument
+          ByDasks        \* subset of BOOLEAN: labels given as a chunked array
 
 C == INSTANCE Cohorts
 P == INSTANCE Plan
@@ -41,8 +43,10 @@ Grow == /\ phase = "input" /\ Len(vals) < MaxLen
         /\ UNCHANGED <<cfg, phase, fact, plan, byCode, result>>
 
 Call == /\ phase = "input" /\ Len(vals) >= MinLen /\ vals # <<>>
-        /\ \E r \in Rows, m \in {"none", "map-reduce", "cohorts", "blockwise"}, e \in BOOLEAN, s \in BOOLEAN :
-             cfg' = [row |-> r, method |-> m, hasExpected |-> e, sort |-> s]
+        /\ \E r \in Rows, m \in {"none", "map-reduce", "cohorts", "blockwise"}, e \in BOOLEAN, s \in BOOLEAN, ri \in Reindexes, bd \in ByDasks :
+             \* explicit blockwise with chunked labels is known findings F02/F06 (escapes with internal errors): left out
+             /\ ~(bd /\ m = "blockwise")
+             /\ cfg' = [row |-> r, method |-> m, hasExpected |-> e, sort |-> s, reindex |-> ri, byDask |-> bd]
         /\ phase' = "called"
         /\ UNCHANGED <<vals, labs, cuts, fact, plan, byCode, result>>
 
@@ -51,7 +55,9 @@ agg == AggTable[cfg.row]
 \* ---------------------------------------------------------------- Factorize
 FactorizeStep ==
   /\ phase = "called"
-  /\ fact' = IF cfg.hasExpected THEN FactorizeExpected(labs, Req, cfg.sort) ELSE FactorizeFound(labs, cfg.sort)
+  \* chunked labels without requested labels: the groups are discovered at compute time, block by block, and the
+  \* combine re-groups them in ascending order whatever sort= says
+  /\ fact' = IF cfg.hasExpected THEN FactorizeExpected(labs, Req, cfg.sort) ELSE FactorizeFound(labs, cfg.sort \/ cfg.byDask)
   /\ phase' = "factorized"
   /\ UNCHANGED <<vals, labs, cuts, cfg, plan, byCode, result>>
 
@@ -75,7 +81,7 @@ Confined == \A g \in 0..(NG - 1) : Cardinality({b \in 1..NB : g \in Incidence[b]
 Planner == C!FindGroupCohorts(Incidence, NG, cfg.method = "cohorts", Single)
 AbstractCfg ==
   [fclass |-> IF agg.rtype = "argreduce" THEN "arg" ELSE IF agg.name \in {"nanfirst", "nanlast"} THEN "nanfl" ELSE "plain",
-   engine |-> "none", method |-> cfg.method, reindex |-> "none", arrDask |-> TRUE, byDask |-> FALSE,
+   engine |-> "none", method |-> cfg.method, reindex |-> cfg.reindex, arrDask |-> TRUE, byDask |-> cfg.byDask,
    expected |-> cfg.hasExpected, dtypeArg |-> FALSE, floatData |-> TRUE, allAxes |-> TRUE, byNdim |-> 1,
    pref |-> Planner.method, hasCohorts |-> Planner.cohorts # {}, oneBlock |-> Len(Ends0) = 1]   \* judged before the rechunk
 
@@ -88,6 +94,9 @@ PlanStep ==
 \* ---------------------------------------------------------------- Execute
 Codes == [i \in 1..NG |-> i - 1]
 Simple == agg.rtype # "argreduce"
+\* map-reduce re-groups (instead of stacking) also when the labels are only known at compute time
+Unknown == cfg.byDask /\ ~cfg.hasExpected
+SimpleMR == Simple /\ ~Unknown
 
 RECURSIVE TreeReduce(_, _, _)
 TreeReduce(irs, simple, rb) ==
@@ -100,9 +109,9 @@ FillOrUnspec == IF agg.userFill.some THEN agg.userFill.v ELSE Unspec
 At(res, g) == LET j == IndexOf(res.groups, g) IN IF j = 0 THEN FillOrUnspec ELSE res.result[j]
 
 MapReduceByCode ==
-  LET rb == plan.rb /\ Simple
+  LET rb == plan.rb /\ SimpleMR
       irs == [b \in 1..NB |-> ChunkSem(agg, BV(b), BC(b), BStart(b) - 1, [reindex |-> rb, expected |-> Codes, dropMissing |-> rb, nanKeepsNaN |-> FALSE])]
-      res == AggregateSem(agg, TreeReduce(irs, Simple, rb), [simple |-> Simple, reindexBlockwise |-> rb, finalReindex |-> ~rb, expected |-> Codes, nanKeepsNaN |-> FALSE])
+      res == AggregateSem(agg, TreeReduce(irs, SimpleMR, rb), [simple |-> SimpleMR, reindexBlockwise |-> rb, finalReindex |-> ~rb /\ ~Unknown, expected |-> Codes, nanKeepsNaN |-> FALSE])
   IN [k \in 1..NG |-> At(res, k - 1)]
 
 SetToSeq(S) == LET RECURSIVE F(_)
@@ -145,7 +154,7 @@ Covered == IF plan.method = "cohorts" /\ Simple THEN C!LabelsIn(Planner.cohorts)
            ELSE UNION {Incidence[b] : b \in 1..NB}
 NeedsFill == \E g \in 0..(NG - 1) : g \notin Covered
 FillRefusal == /\ ~agg.userFill.some /\ NeedsFill
-               /\ (plan.method \in {"cohorts", "blockwise"} \/ agg.rtype = "argreduce")
+               /\ (plan.method \in {"cohorts", "blockwise"} \/ ~(plan.rb /\ SimpleMR))
 
 Execute ==
   /\ phase = "planned"
@@ -174,7 +183,10 @@ InScope == ~(cfg.method = "blockwise" /\ ~Confined)
 RefMinCount == IF agg.userFill.some /\ agg.minCount > 0 THEN agg.minCount ELSE -1
 Inv_Result ==
   (phase = "done" /\ InScope) =>
-     /\ fact.groups = RefGroups(labs, [some |-> cfg.hasExpected, v |-> Req], cfg.sort)
+     /\ LET want == RefGroups(labs, [some |-> cfg.hasExpected, v |-> Req], cfg.sort) IN
+        IF Unknown /\ ~cfg.sort       \* order left open by the property for discovered groups with sort=False
+        THEN Len(want) = Len(fact.groups) /\ {want[i] : i \in 1..Len(want)} = {fact.groups[i] : i \in 1..Len(want)}
+        ELSE fact.groups = want
      /\ \A k \in 1..NG :
           LET exp == RefSlot(agg.name, vals, labs, fact.groups[k], agg.userFill, RefMinCount, [ddof |-> agg.ddof, q |-> <<1, 2>>])
           IN Matches(exp, result[k]) \/ IsUnspec(result[k])
